@@ -70,6 +70,11 @@ def run_all(chk, fsets, tier):
     F0 = facts.load(fsets[0])
     deps.end_of_stream(chk, F0, tier, ("E3.order",), "T5.lookahead", "a failed look-ahead fetch leaves the reader as it was, so the bit-by-bit fallback starts from the same state (C09)")
     deps.backends(chk, F0, tier, ("K.read_word",), "T5.lookahead", "the zero-extended source counts the words it synthesises, so positions agree with the bit-by-bit path (C13)")
+    # "same final stream position": the position of a buffered reader is computed from the backend position and the number of buffered
+    # bits, which after a table look-ahead can exceed one word
+    import rules_effects as re_
+    chk.rule("T5.position", floor=60, doc="E4 (C07.S.position): bit_pos() returns W*word_pos - bits_in_buffer for every buffer state (up to 2W - 1 buffered bits, as a look-ahead refill leaves them), and peek + skip_after_peek(len) advance by exactly len [included: table reads are peek + skip]")
+    re_.run_reader_effects(chk, F0, fsets[0], "T5.position", groups=(None, "seek"))
     for i, fs in enumerate(fsets):
         F = facts.load(fs)
         if i == 0:
